@@ -70,6 +70,9 @@ def judge_path(run, cfg, g, path, steps, res, bodies):
               "expected": {"status": sorted(allowed), "header": hdrkind, "live_after": sorted(succ["live"])},
               "observed": o, "spec": "SessionLifecycle"}
         key = "%s op=%s hdr-class=%s" % (tag, st["op"], h["cls"])
+        if o.get("served_in"):
+            run.diverge(key + " served-in-another-session", "the request bore the live id %s and was served in session %s; history: %s"
+                        % (o.get("sent_hdr"), o["served_in"], hist), rp)
         if not status_ok(o["status"], allowed):
             run.diverge(key + " status=%s" % o["status"],
                         "%s answered %s (err=%s), allowed %s; history: %s" % (st["op"], o["status"], o.get("err"), sorted(allowed), hist), rp)
@@ -205,7 +208,7 @@ def run(tier, replay=None):
             g = r.graph
             graphs[(mode, get)] = g
             for postsse in (True, False):
-                cfg = {"mode": mode, "get": get, "postsse": postsse}
+                cfg = {"mode": mode, "get": get, "postsse": postsse, "mw": not postsse}
                 paths = graphwalk.edge_cover_paths(g, max_len=30, rnd=rnd)
                 if tier == "thorough":
                     paths += graphwalk.random_walks(g, 200 if mode == "stateful" else 20, 40, rnd)
